@@ -56,7 +56,10 @@ def report(chk, c_rel, c_san, lean_exe, cls, lines, d, origin):
             verdicts[tag] = (exe, v)
     if verdicts:
         # shrink under the sanitizers when they see it (the report is at the faulting operation), else on the release build
+        # ... unless the driver's own monitor already names the broken clause on the release build
         tag = "ASan+UBSan build" if "ASan+UBSan build" in verdicts else "release build"
+        if verdicts.get("release build", (None, ""))[1].startswith("PROPERTY"):
+            tag = "release build"
         exe, v = verdicts[tag]
         small = poolcorr.shrink(exe, lines)
         rc2, out2, err2 = poolcorr.run_impl(exe, small)
@@ -66,6 +69,8 @@ def report(chk, c_rel, c_san, lean_exe, cls, lines, d, origin):
             rc3, out3, err3 = poolcorr.run_impl(c_rel, small + ([] if small[-1] == "end" else ["v", "end"]))
             v3 = poolcorr.verdict(rc3, out3, err3)
             other = "; release build on the same script: %s" % (v3 or "no crash, monitors silent (the damage is latent)")
+            if not v3 and "release build" in verdicts:
+                other += "; release build on the unshrunk script (%d ops): %s" % (len(lines), verdicts["release build"][1])
         _, mdef, _ = poolcorr.model_output(lean_exe, cls, small, defective=True)
         fault = [l for l in mdef if l.startswith("fault")][:1]
         what = ("memory pool breaks C20 on a valid alloc/free script (%s; %s): %s%s; the proved model completes the "
@@ -81,6 +86,31 @@ def report(chk, c_rel, c_san, lean_exe, cls, lines, d, origin):
             "monitors (patterns, alignment, overlap, sanitizers) report nothing on this script" % (origin, describe(d)))
     chk.violation(what, script_text(lines, ["impl stderr:"] + poolcorr.err_excerpt(d.get("err", ""), 8)), False)
     return False
+
+
+def loop_disagreements():
+    """Chunk populations n (1..12) at which the regenerated trip count / stride of the chaining loop of cmi_mempool_expand
+    differs from the model's (n - 1 steps of obj_sz / 8 words), evaluated in Lean on the generated definitions."""
+    ok, _ = vlib.lake_build(["CimbaModel.Generated.Mempool"])
+    if not ok:
+        return []
+    text = ("import CimbaModel.Generated.Mempool\nopen CimbaModel.Mempool CimbaModel.Generated.Mempool\n"
+            "#eval (List.range 12).filterMap fun i => let n := i + 1; let s : MP := { incrNum := n, objSz := 64 }; "
+            "if expand_links s = n - 1 ∧ expand_stride s = 8 then none else some n\n")
+    rc, out = vlib.lean_run_file(text)
+    import re
+    m = re.search(r"\[([0-9, ]*)\]", out)
+    return [int(x) for x in m.group(1).split(",") if x.strip()] if (rc == 0 and m) else []
+
+
+def directed_script(kind, n):
+    """alloc / free / re-alloc across several chunks of exactly n objects each"""
+    sz = (poolcorr.PAGE // n) // 8 * 8
+    if sz == 0 or poolcorr.objects_per_chunk(sz, n) != n:
+        return None
+    lines = ["page %d" % poolcorr.PAGE, "init %s %d %d" % (kind, sz, n)] + ["a"] * (3 * n + 2)
+    lines += ["f 1", "f 0", "a", "a", "a", "v", "dump", "end"]
+    return lines
 
 
 def run(chk):
@@ -147,13 +177,27 @@ def run(chk):
     for s in st_san:
         s["san"] = True
     stats += st_san
+    # ---- proof broken: where does the regenerated loop of expand differ from the model's? aim scripts there ----
+    if tgen_ok and not proved:
+        for n in loop_disagreements()[:3]:
+            for kind in ("dyn", "static"):
+                lines = directed_script(kind, n)
+                if lines is None:
+                    continue
+                _, mo, _ = poolcorr.model_output(lean_exe, cls, lines)
+                for exe, tag in ((c_rel, "rel"), (c_san, "san")):
+                    d = poolcorr.compare(exe, lines, mo)
+                    chk.cov["evaluations"] = chk.cov.get("evaluations", 0)
+                    if d is not None:
+                        bad.append((lines, d, "directed at %d objects per chunk, where the regenerated chaining loop of "
+                                               "cmi_mempool_expand takes a different number of steps than the model; %s" % (n, tag)))
     # ---- coverage ----------------------------------------------------------
     chk.cov["evaluations"] = len(stats) + n_corpus
     nontriv = {s["sig"] for s in stats if (s["expands"] >= 2 and s["reuse"] >= 1) or s["list_growths"] >= 1}
     chk.cov["distinct_nontrivial"] = len(nontriv)
     chk.cov["traces_validated_against_impl"] = sum(1 for s in stats if s.get("agree")) + n_corpus - sum(1 for b in bad if b[2].startswith("corpus"))
     chk.cov["rule"] = ("alloc/free/store/verify scripts generated against the running Lean model (profiles ramp/churn/sawtooth; "
-                       "dynamic, CMI_MEMPOOL_STATIC_INIT and the library's own thread-local pools; object sizes 8..512; requested "
+                       "dynamic, CMI_MEMPOOL_STATIC_INIT and the library's own thread-local pools; object sizes 8..512 plus boundary geometries with exactly 1, 2, 3 objects per chunk of 1..4 pages (sizes at the edges of each population, objects larger than a page); requested "
                        "objects per chunk 1..1000; depth 0..3 = number of growths of the chunk list to cross, with a free/"
                        "re-allocate dance at every expansion next to such a growth; final partial or full drain and refill). "
                        "Non-trivial = at least two expansions and at least one allocation served from a returned object, or at "
@@ -174,6 +218,10 @@ def run(chk):
             "reached_target_depth": sum(1 for s in stats if s.get("reached")),
             "max_chunks": max(s["chunks"] for s in stats), "max_live": max(s["max_live"] for s in stats),
             "objects_per_chunk_min_max": [min(s["per_chunk"] for s in stats), max(s["per_chunk"] for s in stats)],
+            "objects_per_chunk": dict(collections.Counter(
+                ("1" if s["per_chunk"] == 1 else "2" if s["per_chunk"] == 2 else "3" if s["per_chunk"] == 3 else
+                 "4-16" if s["per_chunk"] <= 16 else "17-128" if s["per_chunk"] <= 128 else ">128") for s in stats)),
+            "objects_larger_than_a_page": sum(1 for s in stats if s["obj_sz"] > poolcorr.PAGE),
             "CHUNK_LIST_SIZE": cls, "page": poolcorr.PAGE}
         with_head = [s for s in stats if "script_head" in s]
         with_head.sort(key=lambda s: -s["list_growths"])
@@ -182,7 +230,7 @@ def run(chk):
     # ---- disagreements -------------------------------------------------------
     if bad:
         # prefer a disagreement on which the real code itself breaks the property
-        bad.sort(key=lambda b: (b[1].get("verdict") is None, len(b[0])))
+        bad.sort(key=lambda b: (b[1].get("verdict") is None, not str(b[1].get("verdict")).startswith("PROPERTY"), len(b[0])))
         lines, d, origin = bad[0]
         chk.log("%d disagreeing scripts; first: %s %s" % (len(bad), origin, describe(d)))
         report(chk, c_rel, c_san, lean_exe, cls, lines, d, origin)
